@@ -67,7 +67,7 @@ Theorem C14_quiet_run_without_expiry_steps : forall cf o sq ops s,
 Proof. exact quiet_run_syntactic. Qed.
 Print Assumptions C14_quiet_run_without_expiry_steps.
 
-(** The code BEFORE commit 14a75d0 violated the property: a replay relayed by an agent whose counter is ahead made the receiver keep the replayer's sequence; the origin's next genuine announcement, delivered 120 s later, refreshed nothing. *)
+(** The code BEFORE commit 18de407 violated the property: a replay relayed by an agent whose counter is ahead made the receiver keep the replayer's sequence; the origin's next genuine announcement, delivered 120 s later, refreshed nothing. *)
 Theorem C14_refuted_pre_fix :
   exists ops, map (fun e => (kind_code (e_kind e), e_seq e, e_upd e))
                   (filter (fun e => e_origin e =? 0) (entries_pre [] 3 ops 2))
